@@ -8,6 +8,7 @@ mod keys;
 mod obs_b64;
 mod obs_cjson;
 mod obs_claims;
+mod obs_cross;
 mod obs_keys;
 mod obs_pae;
 mod payload;
@@ -40,6 +41,12 @@ fn main() {
             println!("lines={}", rec.finish());
         }
         "gen-fixtures" => keys::gen_fixtures(),
+        "obs-cross" => {
+            let mut rec = Recorder::create(&out);
+            std::panic::set_hook(Box::new(|_| {}));
+            let n = obs_cross::run(&mut rec, seed);
+            println!("{}", serde_json::json!({"lines": rec.finish(), "parses": n}));
+        }
         "obs-keys" => {
             let mut rec = Recorder::create(&out);
             std::panic::set_hook(Box::new(|_| {}));
